@@ -229,6 +229,33 @@ def run_case(cs):
                 if fields == ["mtime"] and ((p + "/ascmhl") in new_asc or (p == "." and "ascmhl" in new_asc)) :
                     continue
                 problems.append(("changed:" + "+".join(fields), p))
+            # histories in scope: folder mode = every history whose root is not ignored; -sf = those on the path from
+            # the named files up to the root.  Anything written into another history's ascmhl folder is out of scope.
+            if kind in ("create", "create-sf") and r.exit in (0, 10, 11):
+                from ..oracle import ignoreref
+
+                hs_now = world.find_histories(root)
+                if kind == "create-sf":
+                    sel = [a for i2, a in enumerate(argv) if i2 > 0 and argv[i2 - 1] == "-sf"]
+                    scope = set()
+                    for sp in sel:
+                        relp = os.path.relpath(os.path.normpath(sp), root)
+                        hh = world.owner(relp, hs_now)
+                        while True:
+                            scope.add(hh)
+                            if hh == ".":
+                                break
+                            hh = max([x for x in hs_now if x == "." or hh.startswith(x + "/")], key=lambda x: (x != ".", len(x)))
+                else:
+                    pats = (hist.latest_patterns(root, ".") if "." in hists_before else None) or list(ignoreref.DEFAULTS)
+                    pats = pats + (["*.tmp"] if "-i" in argv else [])
+                    scope = {x for x in hs_now if x == "." or ignoreref.match(pats, x) is False}
+                for pth in list(df["added"]) + list(df["changed"]):
+                    parts = pth.split("/")
+                    if "ascmhl" in parts and parts[0] == os.path.basename(root):
+                        hrel = "/".join(parts[1 : parts.index("ascmhl")]) or "."
+                        if hrel not in scope:
+                            problems.append(("out-of-scope-history", pth))
             if problems:
                 kinds = sorted({k for k, _ in problems})
                 media = any(os.path.basename(os.path.dirname(p)) != "ascmhl" and os.path.basename(p) != "ascmhl" for _, p in problems)
